@@ -34,9 +34,75 @@ struct Gen
         busyUntil.assign(64, 0);
     }
 
+    // "Derive by tweak": one run in four gets a few operations repeated right behind the original, identical except for
+    // ONE small change in ONE field (or no change at all). Caches keyed on too few fields, skip-if-equal shortcuts and
+    // idempotence bugs need exactly such near-identical consecutive operations, which independent random draws never produce.
+    void tweakPass()
+    {
+        if (!rng.chance(1, 4))
+            return;
+        std::vector<size_t> ops;
+        for (size_t i = 0; i < plan.items.size(); ++i)
+            if (plan.items[i].tag == "op" && plan.items[i].get("k") != OP_RXRESTART && plan.items[i].get("rep", 0) == 0)
+                ops.push_back(i);
+        if (ops.empty())
+            return;
+        const size_t n = 1 + rng.below(3);
+        std::vector<Item> extra;
+        for (size_t q = 0; q < n; ++q)
+        {
+            Item c = plan.items[ops[rng.below(ops.size())]];
+            bool heavy = false;
+            for (auto& m : c.sub)
+                if (m.get("rep", 0) > 50 || m.get("len", 0) > 20000)
+                    heavy = true;
+            if (heavy || c.sub.size() > 40)
+                continue;
+            c.set("t", c.get("t") + 1);
+            Item* target = &c;
+            if (!c.sub.empty() && rng.chance(2, 3))
+                target = &c.sub[rng.below(c.sub.size())];
+            if (!target->kv.empty() && rng.chance(4, 5))
+            {
+                auto& kv = target->kv[rng.below(target->kv.size())];
+                // families with honest senders and strict equality oracles only get tweaks that stay inside the property's domain
+                const bool honest = plan.prop == "C01" || plan.prop == "C05" || plan.prop == "C06" || plan.prop == "C16";
+                static const char* safe[] = {"ts", "ifid", "len", "id", "trail", "alt", "min", "max", "mode", "build", "ver", "pifid", "dev", "what", "val"};
+                bool isSafe = false;
+                for (const char* k : safe)
+                    if (kv.first == k)
+                        isSafe = true;
+                if (kv.first != "k" && kv.first != "node" && kv.first != "t" && kv.first != "type" && kv.first != "kind" && kv.first != "rep" &&
+                    kv.first != "cls" && kv.first != "obj" && (!honest || isSafe))
+                {
+                    switch (rng.below(4))
+                    {
+                        case 0:
+                            kv.second += 1;
+                            break;
+                        case 1:
+                            kv.second = kv.second > 0 ? kv.second - 1 : 0;
+                            break;
+                        case 2:
+                            kv.second ^= (1LL << rng.below(16));
+                            break;
+                        default:
+                            kv.second ^= (1LL << (24 + rng.below(8)));
+                            break;
+                    }
+                }
+            }
+            extra.push_back(std::move(c));
+        }
+        for (auto& e : extra)
+            plan.items.push_back(std::move(e));
+    }
+
     // ops are executed in plan order; sort them by their time so that the intended interleaving happens
     Plan finish()
     {
+        if (plan.prop != "C06" || plan.cfgGet("sweep", 0) == 0)
+            tweakPass();
         std::stable_sort(plan.items.begin(), plan.items.end(), [](const Item& a, const Item& b) {
             const bool ao = a.tag == "op", bo = b.tag == "op";
             if (ao != bo)
